@@ -395,6 +395,25 @@ theorem execCore_guards : ∀ (o : Op) (m : M), GuardsKept m (execCore o m)
     | ok m1 => rw [hr] at h; exact ⟨h.1, rfl⟩
     | err m1 => trivial
     | crash w m1 => trivial
+  | .verb v body, m => by
+    simp only [execCore]
+    have h := exec_guards body { m with lastVerb := v }
+    cases hr : exec body { m with lastVerb := v } with
+    | ok m1 => rw [hr] at h; exact ⟨h.1, h.2⟩
+    | err m1 => trivial
+    | crash w m1 => trivial
+  | .heartBeat ob cgv body, m => by
+    simp only [execCore]
+    split
+    · exact raise_guardsKept _ _ _
+    · have ge := enterCall_guards (.other ob) 0 { m with hbCur := ob, cg := cgv }
+      have hb : GuardsKept m (exec body (enterCall (.other ob) 0 { m with hbCur := ob, cg := cgv })) :=
+        GuardsKept.of_eq ge.1 ge.2 (exec_guards body _)
+      have hcf := callFinish_guardsKept (k := .other ob) (d := 0) (thenTick_guardsKept hb)
+      cases hr : callFinish (.other ob) 0 (thenTick (exec body (enterCall (.other ob) 0 { m with hbCur := ob, cg := cgv }))) with
+      | ok m1 => rw [hr] at hcf; exact ⟨hcf.1, hcf.2⟩
+      | err m1 => trivial
+      | crash w m1 => trivial
 end
 
 end NV.C05
